@@ -52,6 +52,16 @@ def make_residual(spec, lo=None, hi=None):
     rng = np.random.default_rng([int(pseed), 11])
     A = rng.normal(size=(m, n)) * spec.get("scale", 1.0)
     b = rng.normal(size=m)
+    if kind == "nandisc":
+        # defined only on a disc: NaN everywhere outside ||x - centre|| <= radius (a hidden constraint the solver is not told about)
+        c0 = np.array(spec["centre"], dtype=float)
+        R = float(spec["radius"])
+        base = spec.get("base", "lin")
+
+        def f(x):
+            v = (A @ x - b) if base == "lin" else np.concatenate([np.sin(A @ x) - b, [1.0]])
+            return v if float(np.linalg.norm(x - c0)) <= R else v * np.nan
+        return f
     if kind == "const":
         # flat objective: every interpolation value identical (zero model gradient and Hessian); "plateau": flat outside a ball
         return lambda x: b + 0.0 * x[0]
